@@ -38,13 +38,18 @@ impl AuthenticationAdapter for MojangAdapter {
 
         // issue a request to Mojang's authentication endpoint
         let username = user.0;
-        let url = format!(
-            "https://sessionserver.mojang.com/session/minecraft/hasJoined?username={username}&serverId={hash}"
-        );
+        let url = reqwest::Url::parse_with_params(
+            "https://sessionserver.mojang.com/session/minecraft/hasJoined",
+            &[("username", username), ("serverId", hash.as_str())],
+        )
+        .map_err(|err| passage_adapters::Error::FailedFetch {
+            adapter_type: "mojang",
+            cause: Box::new(err),
+        })?;
         #[cfg(feature = "verif-hooks")]
         let url = crate::verif_hooks::redirect_session_url(url.as_str());
         let profile = HTTP_CLIENT
-            .get(&url)
+            .get(url)
             .send()
             .await
             .map_err(|err| passage_adapters::Error::FailedFetch {
